@@ -14,7 +14,7 @@ ENTRY = {
          "n_quick": 6000, "seeds_quick": 2, "n_thorough": 60000, "seeds_thorough": 6,
          "search_seeds": 3},
     ],
-    "level": "proof (partial)",
+    "level": "proof",
     "level_text": "PROVED (kernel-checked, for every port table, every number of holders and every op sequence of store / read / subscriber delivery / mutate any reachable location / read again): if every hand-off point (port) that is used clones, then no two holders' reachable cell sets ever intersect and an op changes the value observed by no holder except the one that (re)binds, mutates or drops its own value (pipeline_isolated, clone_isolates); a sharing port does leak (share_aliases, asis_share_ports_leak: the negation of the full statement on the tree as it is, for exactly the four ports classified share, asis_share_rows); with the proposed fixes the whole table clones and isolation holds for all op sequences (pipeline_isolated_fixed); both ends of every edge of the subscription graph regenerated from core.Wire have a row in the table (ports_cover_wire, ports_cover_components). DYNAMICALLY ESTABLISHED (not proved — a Lean model cannot see Go memory): the port table itself. drive-alias hands real values of every core.UnsignedData / SignedData / ParSignedData implementation × version, the four set types and the duty definitions through the real dutydb.MemDB (directly and through the validatorapi component wired as in core.Wire), parsigdb.MemDB, aggsigdb.MemDB (with its Run loop) and MemDBV2, sigagg.Aggregator, fetcher.Fetcher (incl. the early-fetch cache), scheduler.Scheduler (fan-out, GetDutyDefinition, head-event FetchOnly hand-off) and the submit paths of validatorapi.Component, computes by reflection the reachable mutable locations (pointer targets, slice backing arrays, maps; through structs, interfaces, arrays, unexported fields) of every value handed out and of what the stores keep, mutates every location of one holder and re-reads through the others, and is diffed per op against the model running under the table.",
     "level_note": "Partial by construction: isolation is proved GIVEN the table; the table is established by exhaustive-over-types, exhaustive-over-locations dynamic checks on the ports listed, not by proof. Consensus and parsigex (protobuf marshal / unmarshal on the wire) and the broadcaster (sink) are listed in the table for the wiring graph but not exercised. Data races as such are not covered.",
     "trusted_base": [
